@@ -52,6 +52,7 @@ type gvCfg struct {
 	MinAuthPos   uint32            `json:"minAuthorizePos"` // 0: leave GlobalParam2 unset (default 500)
 	DappFee      uint32            `json:"dappFee"`
 	SplitNum     uint32            `json:"splitNum"`
+	CandNum      uint32            `json:"candidateNum"`   // GlobalParam.CandidateNum (0: 49)
 	GenesisPos   []uint64          `json:"genesisInitPos"` // g1..g7
 	GenesisMax   uint32            `json:"genesisMaxAuthorize"`
 	GenesisOwner []string          `json:"genesisOwners"` // owner (actor name) of g1..g7; default og
@@ -66,6 +67,7 @@ type gvAct struct {
 	P    string `json:"p"`
 	X    uint64 `json:"x"`
 	Y    uint64 `json:"y"`
+	Z    uint64 `json:"z"`
 }
 
 type gvPath struct {
@@ -240,7 +242,10 @@ func (w *gvWorld) setup() {
 	for name, v := range w.cfg.Fund {
 		w.must(w.call(ovl, nutils.OntContractAddress, "transfer", gvTransferArgs(a["admin"], a[name], v), a["admin"]), "fund "+name)
 	}
-	gp := &gov.GlobalParam{CandidateFee: 0, MinInitStake: w.cfg.MinInitStake, CandidateNum: 49, PosLimit: w.cfg.PosLimit,
+	if w.cfg.CandNum == 0 {
+		w.cfg.CandNum = 49
+	}
+	gp := &gov.GlobalParam{CandidateFee: 0, MinInitStake: w.cfg.MinInitStake, CandidateNum: w.cfg.CandNum, PosLimit: w.cfg.PosLimit,
 		A: w.cfg.A, B: w.cfg.B, Yita: 5, Penalty: w.cfg.Penalty}
 	w.must(w.call(ovl, w.gc, gov.UPDATE_GLOBAL_PARAM, common.SerializeToBytes(gp), a["admin"]), "updateGlobalParam")
 	if w.cfg.MinAuthPos != 0 {
@@ -319,12 +324,16 @@ func (w *gvWorld) apply(ovl *overlaydb.OverlayDB, s gvAct) gvRes {
 			ga.Address = a["dapp"]
 		}
 		return w.call(ovl, w.gc, gov.SET_GAS_ADDRESS, common.SerializeToBytes(ga), a["admin"])
-	case "SetDappFee": // updateGlobalParam2 with the configuration's other fields
-		gp2 := &gov.GlobalParam2{MinAuthorizePos: 500, CandidateFeeSplitNum: 49, DappFee: uint32(s.X)}
+	case "SetParam2": // updateGlobalParam2: DappFee = x, CandidateFeeSplitNum = y, the configuration's MinAuthorizePos
+		gp2 := &gov.GlobalParam2{MinAuthorizePos: 500, CandidateFeeSplitNum: uint32(s.Y), DappFee: uint32(s.X)}
 		if w.cfg.MinAuthPos != 0 {
-			gp2.MinAuthorizePos, gp2.CandidateFeeSplitNum = w.cfg.MinAuthPos, w.cfg.SplitNum
+			gp2.MinAuthorizePos = w.cfg.MinAuthPos
 		}
 		return w.call(ovl, w.gc, gov.UPDATE_GLOBAL_PARAM2, gvSer(func(k *common.ZeroCopySink) { vhMust(gp2.Serialization(k)) }), a["admin"])
+	case "SetParam": // updateGlobalParam: A = x, B = y, CandidateNum = z, the configuration's other fields
+		gp := &gov.GlobalParam{CandidateFee: 0, MinInitStake: w.cfg.MinInitStake, CandidateNum: uint32(s.Z), PosLimit: w.cfg.PosLimit,
+			A: uint32(s.X), B: uint32(s.Y), Yita: 5, Penalty: w.cfg.Penalty}
+		return w.call(ovl, w.gc, gov.UPDATE_GLOBAL_PARAM, common.SerializeToBytes(gp), a["admin"])
 	case "TransferPenalty":
 		p := &gov.TransferPenaltyParam{PeerPubkey: pk, Address: who}
 		return w.call(ovl, w.gc, gov.TRANSFER_PENALTY, common.SerializeToBytes(p), a["admin"])
@@ -378,6 +387,10 @@ type gvObs struct {
 	Black    []string          `json:"black"`
 	DappFee  uint32            `json:"dappFee"`
 	HasDapp  bool              `json:"hasDapp"`
+	SplitNum int64             `json:"splitNum"` // stored GlobalParam2.CandidateFeeSplitNum, -1: no GlobalParam2 record
+	PA       uint32            `json:"pA"`
+	PB       uint32            `json:"pB"`
+	CandNum  uint32            `json:"candNum"`
 }
 
 func (w *gvWorld) an(a common.Address) string {
@@ -481,6 +494,14 @@ func (w *gvWorld) observe(ovl *overlaydb.OverlayDB, o *gvObs) {
 		var g2 gov.GlobalParam2
 		vhMust(g2.Deserialization(common.NewZeroCopySource(gvRaw(v))))
 		o.DappFee = g2.DappFee
+		o.SplitNum = int64(g2.CandidateFeeSplitNum)
+	} else {
+		o.SplitNum = -1
+	}
+	if v, err := cache.Get(nutils.ConcatKey(w.gc, []byte(gov.GLOBAL_PARAM))); err == nil && v != nil {
+		var g gov.GlobalParam
+		vhMust(g.Deserialization(common.NewZeroCopySource(gvRaw(v))))
+		o.PA, o.PB, o.CandNum = g.A, g.B, g.CandidateNum
 	}
 	if v, err := cache.Get(nutils.ConcatKey(w.gc, []byte(gov.GAS_ADDRESS))); err == nil && v != nil {
 		var ga gov.GasAddress
@@ -566,7 +587,7 @@ func TestVerifGovTrace(t *testing.T) {
 	holders := []string{"a1", "a2", "o1", "o2"}
 	names := []string{"Register", "SetMax", "Authorize", "Authorize", "Authorize", "UnAuthorize", "UnAuthorize", "Withdraw", "Withdraw",
 		"Quit", "Black", "White", "Commit", "Commit", "Commit", "AddInit", "ReduceInit", "SetCost", "Fee", "Fee", "WithdrawFee", "TransferPenalty",
-		"SetGas", "SetDappFee"}
+		"SetGas", "SetParam2", "SetParam"}
 	h0 := w.height
 	for ti := 0; ti < in.NTraces; ti++ {
 		w.height = h0
@@ -604,6 +625,11 @@ func TestVerifGovTrace(t *testing.T) {
 						if s.Name == "Withdraw" && r.WU > 0 && rng.Intn(3) != 0 {
 							s.X = r.WU
 						}
+						if s.Name == "UnAuthorize" && rng.Intn(2) == 0 {
+							// the amounts at which unAuthorizeForPeer changes its branch: the fresh NewPos, one step
+							// beyond it (fresh + part of the committed pos), fresh + all committed pos of either kind
+							s.X = []uint64{r.N, r.N + 500, r.N + r.C, r.N + r.D, r.N + r.C + r.D}[rng.Intn(5)]
+						}
 					}
 				case "Quit", "AddInit", "ReduceInit":
 					s.A = owner[s.P]
@@ -618,11 +644,19 @@ func TestVerifGovTrace(t *testing.T) {
 					if rng.Intn(2) == 0 { // keep the admin calls rarer
 						s.Name, s.X = "Commit", 0
 					}
-				case "SetDappFee":
+				case "SetParam2": // DappFee, CandidateFeeSplitNum around K = 7 and the possible pool sizes 7..9
 					s.P = ""
 					s.X = []uint64{0, 20, 50, 100}[rng.Intn(4)]
+					s.Y = []uint64{49, 8, 9, 7, 8, 6, 10}[rng.Intn(7)]
 					if rng.Intn(2) == 0 {
-						s.Name, s.X = "Commit", 0
+						s.Name, s.X, s.Y = "Commit", 0, 0
+					}
+				case "SetParam": // A, B, CandidateNum (A + B != 100 and CandidateNum < 4K are refused)
+					s.P = ""
+					v := [][3]uint64{{50, 50, 49}, {0, 100, 49}, {100, 0, 28}, {30, 70, 49}, {60, 50, 49}, {50, 50, 27}}[rng.Intn(6)]
+					s.X, s.Y, s.Z = v[0], v[1], v[2]
+					if rng.Intn(2) == 0 {
+						s.Name, s.X, s.Y, s.Z = "Commit", 0, 0, 0
 					}
 				case "Fee":
 					s.P = ""
